@@ -23,7 +23,7 @@ RULE = ("case = one EVSE configuration with a batch of pilots placed at every ac
         "with or without a connected EV, or one generated network whose advertised values are applied; every set_pilot call is one "
         "evaluation; non-trivial = a batch with both accepted and rejected pilots within 2e-3 A of a boundary; distinct = distinct descriptors")
 ASSUMPTIONS = [
-    "finite pilots only (an advertised infinite maximum is counted, not applied)",
+    "non-finite pilots (NaN, -inf: never allowable; +inf: allowable exactly for a continuous range without upper end) are offered in 3% of the direct calls; an advertised infinite maximum is counted, not applied",
     "guard band 1e-9 A around each acceptance boundary",
     "EV attached for rejection side-effect checks has a two-stage battery; energy and battery compared exactly (no charge may happen on rejection)",
 ]
@@ -38,7 +38,7 @@ ANCHORS = [
     "acnportal.acnsim.interface:Interface.allowable_pilot_signals",
 ]
 REQUIRED = ["set_pilot_judged", "accepted", "rejected", "regime:EVSE", "regime:DeadbandEVSE", "regime:FiniteRatesEVSE",
-            "rejected_with_ev_state_checked", "pilot_equals_current", "pilot_exact_zero", "pilot_repeated", "replug_between_pilots",
+            "rejected_with_ev_state_checked", "non_finite_pilots_judged", "pilot_equals_current", "pilot_exact_zero", "pilot_repeated", "replug_between_pilots",
             "advertised_values_applied", "suite:set_pilot_judged", "advertised_after_json", "plugin_occupied_refused", "plugin_occupied_same_session_id_refused"]
 BUDGET_S = {"quick": 200, "thorough": 2400}
 OFFS = [0, 1e-6, 5e-4, 9.99e-4, 1.001e-3, 2e-3, 0.5, 3]
@@ -85,12 +85,18 @@ def _after(ctx, result, exc):
         pf = float(pilot)
     except Exception:
         return
-    if d is None or not math.isfinite(pf):
+    if d is None:
         obs.ev("set_pilot_not_judged")
         return
     if exc is not None and not isinstance(exc, InvalidRateError):
         return  # some other failure (e.g. invalid voltage), not an accept/reject decision
-    ok_exp, dist = oracles.evse_accepts(d, pf)
+    if not math.isfinite(pf):
+        # NaN and -inf lie in no allowable set; +inf lies in a continuous range exactly when that range has no upper end
+        ok_exp = pf == math.inf and d["t"] in ("EVSE", "DB") and d["max"] == math.inf
+        dist = F(1)
+        obs.ev("non_finite_pilots_judged")
+    else:
+        ok_exp, dist = oracles.evse_accepts(d, pf)
     if dist < F(1, 10 ** 9):
         obs.boundary += 1
         return
@@ -231,6 +237,8 @@ def _run_direct(case, obs):
                 evse.plugin(car)
             obs.ev("replug_between_pilots")
         last = p
+        if rng.random() < 0.03:
+            p = rng.choice([math.nan, math.nan, math.inf, -math.inf])  # what 0/0 or x/0 in a sharing rule hands to a station
         if rng.random() < 0.15:
             p = np.float64(p)
         if abs(off) <= 2e-3:
